@@ -368,3 +368,28 @@ func (h H) resetTimerOnlyOnGrant(rule string) {
 }
 
 func selName(string) string { return "" }
+
+// setTermOnlyOnHigherTerm: setTerm clears the recorded vote, so every call site
+// must be behind "the observed term is strictly higher than ours".
+func (h H) setTermOnlyOnHigherTerm(rule string) {
+	st := h.fn("raft:(*storage).setTerm")
+	n := 0
+	for _, s := range h.P.Callers(st) {
+		root := h.name(core.Root(s.Fn))
+		if root == "(*storage).bootstrap" {
+			continue // term 1 on an empty storage
+		}
+		n++
+		ci := s.Instr.(ssa.CallInstruction)
+		recv, arg := h.argStr(ci, 0), h.argStr(ci, 1)
+		termExpr := recv + ".term"
+		fi := h.P.Info(s.Fn)
+		r := fi.MustCrossAtom(s.Instr, core.MkAtom(arg, ">", termExpr))
+		if !r.OK && root == "(*leader).checkReplUpdates" {
+			// the newTerm update is produced by a replication goroutine only for a staleTerm reply (checked by C01.5 forward-new-term)
+			r.OK = strings.HasSuffix(arg, ".val")
+		}
+		h.C.Check(rule, "setTerm in "+root, r.OK, h.pos(s.Instr), "setTerm("+arg+") (which clears the recorded vote) is reachable without the term being strictly higher than the node's: "+r.Witness)
+	}
+	h.C.Floor(rule+" (setTerm call sites)", n, 4)
+}
